@@ -310,6 +310,16 @@ func c13Observe(text string) M {
 					return s
 				}},
 			}
+			// ... also when the statement has been ASKED first (interval, offset, names: whatever an accessor
+			// remembers must survive the derivation, or not be carried over)
+			asked := func() *influxql.SelectStatement {
+				s := sel(fresh())
+				_, _ = s.GroupByInterval()
+				_, _ = s.GroupByOffset()
+				_ = s.ColumnNames()
+				_ = s.String()
+				return s
+			}
 			for _, d := range derive {
 				d := d
 				var ok bool
@@ -319,6 +329,16 @@ func c13Observe(text string) M {
 				for _, op := range c13SelectOps() {
 					op := op
 					rec("after:"+d.name+">"+op.name, func() { op.run(d.f(sel(fresh()))) })
+				}
+				if p := guard(func() { ok = d.f(asked()) != nil }); p != "" || !ok {
+					if p != "" {
+						ops = append(ops, M{"op": "asked>" + d.name, "out": "panic", "msg": p})
+					}
+					continue
+				}
+				for _, op := range c13SelectOps() {
+					op := op
+					rec("asked>"+d.name+">"+op.name, func() { op.run(d.f(asked())) })
 				}
 			}
 		}
